@@ -193,6 +193,7 @@ func OpenWith(g Geometry, m *Media, opt OpenOptions) *Store {
 		s = openReal(g, m, opt)
 	} else {
 		s = openHarness(g, m)
+		vsched.Count("stores_assembled_by_harness_copy_of_the_wiring", 1)
 		if opt.Ctx != nil && g.Persistent {
 			s.startSyncers(opt.Ctx, opt.OnPutLoopExit)
 		}
